@@ -431,6 +431,17 @@ def c01_cases(tier, rng):
             yield mk(n, e, combo())
     for n, e in random_inputs(rng, 2500 if tier == "quick" else 40000, 5, 40, density=1.4):
         yield mk(n, e, combo())
+    # deep and narrow: 5-12 layers of 2-4 nodes, sparse, shuffled edge lists - the ordering heuristics' inner loops (median
+    # sweeps, transposition until nothing improves) need the most passes here, where an exchange in one layer makes an
+    # exchange in the layer above profitable only on the next pass (1 in 7 000 of these needs more transposition passes than
+    # its widest layer has nodes)
+    for i in range(14000 if tier == "quick" else 140000):
+        n, e = K.deep_narrow(rng, rng.randint(5, 12), rng.choice([3, 3, 3, 2, 4]))
+        cb = combo()
+        if cb["p5"] == "splines" or cb["p4"] == "nspos":
+            cb.update(p5="poly", p4="sink")
+        cb["names"] = "plain"
+        yield mk(n, e, cb)
     # the spline router where its corridors are well-formed (positive sizes and spacings, size-aware positioner): no known
     # finding covers these, a hang or panic here is a violation (regression family of the repairs e4dc109 and 85cb9a1)
     for n, e in random_inputs(rng, 800 if tier == "quick" else 12000, 4, 14, density=1.3):
